@@ -296,6 +296,7 @@ func runC13(c *Ctx) {
 	fieldSetParallel(c)
 	funcFieldsSet(c, pkgGraphql)
 	batchHasNextFromLast(c)
+	hasNextAbsentIsFalse(c)
 	fieldSetAgreement(c)
 }
 
